@@ -74,6 +74,7 @@ Proof. intros H. inversion H; subst; split; intros; auto; discriminate. Qed.
 
 Section CompCons.
   Variable vr : variant.
+  Variable ev : env.
   Variable pok : ver -> ustring -> bool.
   Variables c sc : cls.
   Variable mem : list (ustring * jvalue).
@@ -82,7 +83,7 @@ Section CompCons.
   Hypothesis Hfam : cfamily c = cfamily sc.
   (* every specification property is a library property *)
   Hypothesis Hsub : forall s', In s' (cslots sc) -> exists s, find_slot c (sname s') = Some s.
-  Hypothesis Hent : forall k x, alookup k setting = Some x -> ent_ok c sc mem k x.
+  Hypothesis Hent : forall k x, alookup k setting = Some x -> ent_ok vr ev c sc mem k x.
   Hypothesis Hin : forall k v, alookup k mem = Some v -> amem k setting = true.
   Hypothesis HT : Itime c setting.
 
@@ -90,7 +91,7 @@ Section CompCons.
   Proof.
     intros Hn. destruct (alookup p mem) as [v|] eqn:E; [eapply Hin; eauto|].
     destruct (amem p setting) eqn:Ea; auto. apply amem_alookup in Ea. destruct Ea as [x Hx].
-    pose proof (Hent p x Hx) as He. unfold ent_ok in He. rewrite E in He. destruct He as [s [Hf Hd]].
+    pose proof (Hent p x Hx) as He. unfold ent_ok in He. rewrite E in He. destruct He as [s [Hf [Hd _]]].
     unfold nodefault in Hn. rewrite Hf in Hn. destruct (sdef s); try discriminate. contradiction.
   Qed.
 
